@@ -6,6 +6,7 @@
 
 mod corpus;
 mod globprog;
+mod ignoreprog;
 mod nfa;
 mod regexprog;
 mod smt;
@@ -214,6 +215,9 @@ fn main() {
         }
         "glob" => {
             programs = globprog::run_all(&mut ctx, &mut z3, &tier, seed, std::path::Path::new(&repo), si, sn, &only);
+        }
+        "ignore" => {
+            programs = ignoreprog::run_all(&mut ctx, &mut z3, &tier, seed, std::path::Path::new(&repo), si, sn, &only);
         }
         _ => {
             eprintln!("unknown mode");
